@@ -43,6 +43,7 @@ ASSUMPTIONS.update({
 })
 LEMMAS = {}
 UNVERIFIED = {
+    "C09": ["of the evaluator loop only the early error exits are under contract for C09 (every `return Err(EvalError::..)` and every `?` of eval leaves the stack as the step found it, so a session can resume or abort after it); the command handlers are in unit session"],
     "C07": ["only the two error exits of the return-type check in eval's frame-pop branch are under contract here (the value a finished call returns stays on the value stack when its type check fails); the step functions are in units restore and steps"],
     "C08": ["that a resumed evaluation continues identically: follows from the stack being equal only if eval_expr is a function of the stack (unverified)",
             "output interleaving; who sets the interrupted flag (nrepl/json session threads)"],
@@ -80,6 +81,15 @@ WITNESSES = [
     {"match": r"evalloop\.eval\.site\[wrong_return_type", "kind": "resume-corpus", "props": ["C07"], "expect": {},
      "input": [{"what": "a function returning a value of the wrong type, resumed", "session": ["fun g(): String { 1 }", "g()"], "resumes": 3}]},
     {"match": r"evalloop\.eval\.", "kind": "interrupt-session", "props": ["C08"], "input": INTERRUPT_PROGRAMS, "timeout": 60},
+    {"match": r"evalloop\.eval\.site\[early_exit_(question_mark|Exception)", "kind": "resume-corpus", "props": ["C07", "C09"], "expect": {},
+     "input": [{"what": "a function whose return type hint names no type, resumed three times", "session": ["fun f(): Nosuch { 1 }", "f()"], "resumes": 3},
+               {"what": "a return type hint with an unknown type argument", "session": ["fun f2(): Option<Nosuch> { Some(1) }", "f2()"], "resumes": 3},
+               {"what": "a function returning a value of the wrong type, resumed three times", "session": ["fun g(): String { 1 }", "g()"], "resumes": 3},
+               {"what": "a generic function whose result fails the return check", "session": ["fun untyped(x) { x }", "fun wrap<T>(x: T): List<T> { untyped(x) }", "wrap(1)"], "resumes": 3}]},
+    {"match": r"evalloop\.eval\.", "kind": "json-session", "props": ["C09"], "timeout": 60,
+     "input": ["fun f(): NoSuchTy { 1 }", "f()", ":resume", ":resume", ":abort", "1 + 1"],
+     "expect": {"py": "(lambda n: '' if n >= 6 and 'panicked' not in err else 'only %d responses for 6 requests (a failed return-type check, two resumes, abort, 1 + 1): ' % n + (out + err)[-300:])(len([o for o in jsons(full_out) if isinstance(o, dict)]))"},
+     "note": "a failing return-type check resumed twice: the session must still answer"},
 ] + [
     # C25: a sandboxed run of a non-terminating program must end (limit error) well within the timeout
     {"match": r"evalloop\.eval_with_tick_limit\.", "kind": "playground", "props": ["C25"], "input": prog, "timeout": 20,
@@ -248,9 +258,27 @@ def build(tier):
                   ("Exception", 1): "wrong_return_type_keeps_return_value"}
         name = legacy.get((variant, k_), "early_exit_%s_%d_restores_step" % (variant, k_ + 1))
         SITES.append(dict(anchor="return Err(EvalError::%s" % variant, where="before", nth=k_, name=name,
-                          props={"C07"} if variant == "Exception" else {"C08"}, text=SAME_RET if after_pop else SAME))
+                          props={"C07", "C09"} if variant == "Exception" else {"C08"}, text=SAME_RET if after_pop else SAME))
+    # a `?` in eval is an early exit too: `let X = E?;` / `E?;` is rewritten (rule Rq) into its definition
+    # `match E { Ok(v) => v, Err(e) => return Err(e) }` so that the same assertion can be placed before the return
+    QRX = re.compile(r"(?P<lhs>let\s+(?:mut\s+)?\w+(?:\s*:\s*[^=;]+?)?\s*=\s*)?(?P<e>(?<![\w)\]])\b[\w:]+(?:\([^;]*?\)|\.[\w]+(?:\([^;]*?\))?)*)\?\s*;")
+    q_positions = [m_.start() for m_ in QRX.finditer(body)]
+
+    def rq(text):
+        n = [0]
+
+        def repl(m_):
+            n[0] += 1
+            lhs = m_.group("lhs") or ""
+            return "%smatch %s { Ok(__v) => __v, Err(__e) => { return Err(__e); } };" % (lhs, m_.group("e"))
+        return QRX.sub(repl, text), n[0]
+    rq.rule_id = "Rq"
+    for k_, pos_ in enumerate(q_positions):
+        after_pop = cut >= 0 and pos_ > cut
+        SITES.append(dict(anchor="return Err(__e);", where="before", nth=k_, name="early_exit_question_mark_%d_restores_step" % (k_ + 1),
+                          props={"C07", "C08", "C09"}, text=SAME_RET if after_pop else SAME))
     PROFILE_LOOP = dict(invariant=[("idx", "__i1 <= env.stack.0@.len()")], decreases="env.stack.0@.len() - __i1")
-    u.add_fn(EV, "eval", rules=RULES, contract=Contract(
+    u.add_fn(EV, "eval", rules=[rq] + RULES, contract=Contract(
         requires=[("nonempty", "old(env).stack.0@.len() >= 1")],
         # an interrupted / limited evaluation is resumed by calling eval again; eval's first statement
         # returns Unit at once when only the toplevel frame is left and it has nothing to evaluate, so
